@@ -134,7 +134,9 @@ class Deref(object):
         hit = []
 
         def asserts(bid):
-            b = fn.blocks[bid]
+            b = fn.blocks.get(bid)
+            if b is None:
+                return False        # an edge derived from a folded helper's returned condition: it has no target block
             return b.get('noreturn') and any(t.ev.get('callee') == '__assert_fail' for t in fn.block_sites(bid))
 
         def on_edge(st, e):
